@@ -353,7 +353,22 @@ Definition apply_oracles (gone : string -> bool) (vers : list string) (ign : str
                           existsb (fun q => negb (Nat.eqb (List.length q) (List.length (fst pn))) && kind_changed s tr lv cfg q)
                                   (prefixes (fst pn)))
                        (nodes s tr lv))
-              "prop C03 a manager's first apply removes nothing"
+              "prop C03 a manager's first apply removes nothing" @@
+          (* "containers left without content by this disappear too": a map or list with
+             content in the live object that the result holds as an explicit null (known
+             finding F26: RemoveItems writes the nil of an emptied container back into its
+             parent, as the repository's own remove tests expect) *)
+          (let nulled :=
+             filter (fun p =>
+                       match resolve_path s tr res p, resolve_path s tr lv p with
+                       | Some (RNode _ VNull), Some (RNode _ (VMap (_ :: _)))
+                       | Some (RNode _ VNull), Some (RNode _ (VList (_ :: _))) => negb (pmem p cfgnodes)
+                       | _, _ => false
+                       end) (map fst (nodes s tr res)) in
+           match nulled with
+           | [] => []
+           | _ => ["prop C03 a container emptied by the apply stays behind as an explicit null: " ++ show_sexp (enc_paths nulled)]
+           end)
         else []
     | _, _ => []
     end
